@@ -514,8 +514,8 @@ func defineFieldMap(ttype Named, fieldMap Fields) (FieldDefinitionMap, error) {
 			continue
 		}
 		err = invariantf(
-			field.Type != nil,
-			`%v.%v field type must be Output Type but got: %v.`, ttype, fieldName, field.Type,
+			!isNilType(field.Type),
+			`%v.%v field type must be Output Type but got: %v.`, ttype, fieldName, nil,
 		)
 		if err != nil {
 			return resultFieldMap, err
@@ -559,8 +559,8 @@ func defineFieldMap(ttype Named, fieldMap Fields) (FieldDefinitionMap, error) {
 				return resultFieldMap, err
 			}
 			if err = invariantf(
-				arg.Type != nil,
-				`%v.%v(%v:) argument type must be Input Type but got: %v.`, ttype, fieldName, argName, arg.Type,
+				!isNilType(arg.Type),
+				`%v.%v(%v:) argument type must be Input Type but got: %v.`, ttype, fieldName, argName, nil,
 			); err != nil {
 				return resultFieldMap, err
 			}
@@ -1204,8 +1204,8 @@ func (gt *InputObject) defineFieldMap() InputObjectFieldMap {
 			continue
 		}
 		if gt.err = invariantf(
-			fieldConfig.Type != nil,
-			`%v.%v field type must be Input Type but got: %v.`, gt, fieldName, fieldConfig.Type,
+			!isNilType(fieldConfig.Type),
+			`%v.%v field type must be Input Type but got: %v.`, gt, fieldName, nil,
 		); gt.err != nil {
 			return resultFieldMap
 		}
@@ -1281,6 +1281,9 @@ type List struct {
 func NewList(ofType Type) *List {
 	gl := &List{}
 
+	if isNilType(ofType) {
+		ofType = nil
+	}
 	gl.err = invariantf(ofType != nil, `Can only create List of a Type but got: %v.`, ofType)
 	if gl.err != nil {
 		return gl
@@ -1332,6 +1335,9 @@ type NonNull struct {
 func NewNonNull(ofType Type) *NonNull {
 	gl := &NonNull{}
 
+	if isNilType(ofType) {
+		ofType = nil
+	}
 	_, isOfTypeNonNull := ofType.(*NonNull)
 	gl.err = invariantf(ofType != nil && !isOfTypeNonNull, `Can only create NonNull of a Nullable Type but got: %v.`, ofType)
 	if gl.err != nil {
@@ -1354,6 +1360,15 @@ func (gl *NonNull) String() string {
 }
 func (gl *NonNull) Error() error {
 	return gl.err
+}
+
+// isNilType reports whether a type is absent: a nil interface or a nil pointer in the interface.
+func isNilType(ttype Type) bool {
+	if ttype == nil {
+		return true
+	}
+	v := reflect.ValueOf(ttype)
+	return v.Kind() == reflect.Ptr && v.IsNil()
 }
 
 var NameRegExp = regexp.MustCompile("^[_a-zA-Z][_a-zA-Z0-9]*$")
